@@ -178,7 +178,13 @@ def run(call: GeneratorCall) -> Module:
         raise RuntimeError(msg)
 
     # The main event: Run the generator-function
-    m = call.gen.func(call.params)
+    try:
+        m = call.gen.func(call.params)
+    except Exception:
+        # The generator-function failed. Unwind our records of the call, so that it can be run again.
+        the_cache.stack.pop()
+        the_cache.pending.discard(call)
+        raise
 
     if not isinstance(m, Module):
         msg = f"Generator {call.gen} returned {m}, must return `Module`."
